@@ -27,6 +27,9 @@ bool ops_misc(Ctx& c, const json& s, int idx, bool& handled) {
 			const std::string kind = pt["kind"]; const std::string rx = kind == "prefix" ? "^" + text : kind == "suffix" ? text + "$" : kind == "contains" ? text : "^" + text + "$";
 			if (!cmpList(rm.GetAllFilenames(rx, true), (*ans)["pats"][pi]["withArch"], "GetAllFilenames", "pattern " + rx)) return false;
 			if (!cmpList(rm.GetAllFilenames(rx, false), (*ans)["pats"][pi]["noArch"], "GetAllFilenames", "pattern " + rx + " loose only")) return false; }
+		for (std::size_t ti = 0; ti < s["types"].size(); ++ti) { const std::string ext = Scen::str(s["types"][ti]);
+			if (!cmpList(rm.GetAllFilenamesOfType(ext, true), (*ans)["types"][ti]["withArch"], "GetAllFilenamesOfType", "extension '" + ext + "'")) return false;
+			if (!cmpList(rm.GetAllFilenamesOfType(ext, false), (*ans)["types"][ti]["noArch"], "GetAllFilenamesOfType", "extension '" + ext + "' loose only")) return false; }
 		if (!cmpList(rm.GetAllFilenamesOfType(".txt"), (*ans)["txt"], "GetAllFilenamesOfType")) return false; if (!cmpList(rm.GetAllFilenamesOfType(".txt", false), (*ans)["txtLoose"], "GetAllFilenamesOfType")) return false; if (!cmpList(rm.GetAllFilenamesOfType(".map"), (*ans)["map"], "GetAllFilenamesOfType")) return false;
 		return true; }
 	if (op == "names_rel") { for (auto& p : s["pairs"]) { const std::string a = Scen::str(p["a"]), b = Scen::str(p["b"]); bool less = StringUtility::IsEqualCaseInsensitive(a, b), eq = StringUtility::IsEqual(a, b);
